@@ -136,7 +136,7 @@ Print Assumptions C20_concrete_no_leak.
 
 (* Non-vacuity: three documents - a 1.4.1 one masking broken references, a 1.5 one masking nothing,
    one in another namespace - with interleaved ignoreErrors / handleError / tag / id / prefix steps *)
-Definition cg0 : cglobal := CG [(141, 0)]%N 141%N [(7, 0)]%N.
+Definition cg0 : cglobal := CG [(141, 0)]%N 141%N [(7, 0)]%N [1; 2; 3]%N 1000 false.
 Definition cd0 : cdocst := CD [] [] 141%N [].
 Definition csched : sched cop :=
   [(0, OSetTagger 141%N); (1, OSetTagger 150%N); (0, OIgnore (IAdd [MCls K_DaeBrokenRefError]));
@@ -161,4 +161,40 @@ Example C20_counter_refutes :
   let s0 : state (cglobal * N) cdocst := ((cg0, 1%N), fun _ => cd0) in
   outputs_of 1 (snd (run leaky_counter_step s0 [(0, OMakeSurface 20%N); (1, OMakeSurface 20%N)])) <>
   outputs_of 1 (snd (run leaky_counter_step s0 (project 1 [(0, OMakeSurface 20%N); (1, OMakeSurface 20%N)]))).
+Proof. vm_compute. discriminate. Qed.
+
+(* class-level and interpreter-wide settings in G: InputList.semantics, the recursion limit, numpy's
+   error mode.  The modelled steps READ them (addInput accepts a semantic or not, a nested load fits
+   the recursion limit or not, a degenerate computation yields NaN or raises) and, being lifted
+   steps, leave them exactly as they were - after every schedule *)
+Theorem C20_concrete_settings_unchanged : forall (sc : sched cop) (s : state cglobal cdocst),
+  let g := fst (fst (run cgstep s sc)) in
+  g_semantics g = g_semantics (fst s) /\ g_reclimit g = g_reclimit (fst s) /\ g_nperr g = g_nperr (fst s) /\
+  g_nsmap g = g_nsmap (fst s) /\ g_factory_ns g = g_factory_ns (fst s) /\ g_defaults g = g_defaults (fst s).
+Proof.
+  intros sc s g. unfold g. rewrite (proj2 (proj2 (C20_concrete_projection 0 sc s))). repeat split; reflexivity.
+Qed.
+Print Assumptions C20_concrete_settings_unchanged.
+
+(* what a step answers depends on those settings only through the constant G: the same operation
+   of a document gives the same answer wherever it stands in any schedule *)
+Theorem C20_concrete_answers_read_constant_G : forall o i g (ds ds' : nat -> cdocst), ds i = ds' i ->
+  snd (cgstep o i (g, ds)) = snd (cgstep o i (g, ds')).
+Proof. intros o i g ds ds' H. apply (proj2 (lift_own _ _ _ _ dstep o i g ds ds' H)). Qed.
+Print Assumptions C20_concrete_answers_read_constant_G.
+
+Example C20_settings_nonvacuous :
+  let sc := [(0, OAddInput 2%N); (1, OAddInput 9%N); (0, OLoadNested 390); (1, OLoadNested 600); (2, ODegenerate)] in
+  map snd (snd (run cgstep (cg0, fun _ => cd0) sc)) =
+    [UAccepted true; UAccepted false; URaised None; URaised (Some PyOther); UValue true] /\
+  g_semantics (fst (fst (run cgstep (cg0, fun _ => cd0) sc))) = [1; 2; 3]%N.
+Proof. vm_compute. split; reflexivity. Qed.
+
+(* the shape is needed: registering a foreign semantic in the class-level list (seeded change
+   C20-em3) is not a lifted step, and whether document 1's addInput is accepted depends on document
+   0 having taken an input list before *)
+Example C20_semantics_refutes :
+  let sc := [(0, OTag 9%N); (1, OAddInput 9%N)] in
+  outputs_of 1 (snd (run leaky_semantics_step (cg0, fun _ => cd0) sc)) <>
+  outputs_of 1 (snd (run leaky_semantics_step (cg0, fun _ => cd0) (project 1 sc))).
 Proof. vm_compute. discriminate. Qed.
